@@ -27,20 +27,32 @@ def comparator_table(prog, rule=None):
     adt = prog.adts[builders.RANK]
     table = {}
     allnames = [v["name"] for v in adt["variants"]]
-    for conds, ret, path in path_table(b):
+    from engine.analyses import sym_paths, PathLimit
+    try:
+        paths = sym_paths(b, 0, 4096)          # branches decided by the two variants (a key / tier computed from them) are followed, not split
+    except PathLimit:
+        return key[0], {}
+    for path, env, conds5 in paths:
         A, B = set(allnames), set(allnames)
-        for c in conds:
+        stray = None
+        for c5 in conds5:
+            c = c5[:4]
             d = strip_refs(c[0])
-            if d.k != "discr":
-                continue
-            root, f = apath(d.a[0])
-            vs = set(variant_of(c, adt))
-            if root.k == "arg" and root.a[0] == 1:
-                A &= vs
-            elif root.k == "arg" and root.a[0] == 2:
-                B &= vs
+            root, f = apath(d.a[0]) if d.k == "discr" else (None, None)
+            if root is not None and root.k == "arg" and root.a[0] in (1, 2) and not [x for x in f if not str(x).startswith("@")]:
+                vs = set(variant_of(c, adt))
+                if root.a[0] == 1:
+                    A &= vs
+                else:
+                    B &= vs
+            else:
+                stray = d
+        ret = env.get(0)
         r = strip_refs(ret) if ret is not None else None
         leaf = ("other", repr(r))
+        if stray is not None:
+            r = None
+            leaf = ("other", "a branch on %r inside the comparator" % (stray,))
         if r is not None and r.k == "agg" and r.a[0].startswith("adt:std::cmp::Ordering::"):
             leaf = ("const", ORD[r.a[0].split("::")[-1]])
         elif r is not None and r.k == "call" and r.a[0].endswith("Ord for u8>::cmp") or (r is not None and r.k == "call" and r.a[0].endswith("::cmp") and "u8" in r.a[0]):
